@@ -118,6 +118,9 @@ RunLoop:
 	for {
 		t.RequireCPU(1)
 		verifLuaStep(t, c, pc)
+		// Keep the continuation's pc current: an error raised in a nested call
+		// made by this instruction (e.g. a metamethod) is located with it.
+		c.pc = pc
 
 		if t.DebugHooks.areFlagsEnabled(HookFlagLine) {
 			line := lines[pc]
